@@ -225,6 +225,30 @@ def meets_spec(op, code, spec, roles=None):
         if need and got[-len(need):] != need:
             return False, "did not resume at the next intact section"
         return True, ""
+    if spec.startswith("~buckets"):
+        # C09 bucket for bucket: the cache file decodes to the expected bucket means, except at the listed
+        # bucket numbers (the bucket straddling a cut of the source), where anything - also absence - goes
+        parts = spec.split(" ", 4)
+        kv = dict(x.split("=", 1) for x in parts[1:4])
+        want = parse_entries(parts[4] if len(parts) > 4 else "ok -") or []
+        dev = set(int(x) for x in kv["dev"].split(",") if x)
+        if not code.startswith("ok ") or code == "ok absent":
+            return False, "the cache file is missing"
+        try:
+            raw = bytes.fromhex(code[3:].strip())
+        except ValueError:
+            return False, "unreadable"
+        got = decode_region(raw[int(kv["hdr"]):], int(kv["p"]))
+        if got is None:
+            return False, "the cache file does not decode as the documented format"
+        for i in range(max(len(got), len(want))):
+            if i in dev:
+                continue
+            a = got[i] if i < len(got) else None
+            b = want[i] if i < len(want) else None
+            if a != b:
+                return False, f"bucket {i}: cache holds {a}, one uninterrupted session gives {b} (buckets that may deviate: {sorted(dev)})"
+        return True, ""
     if spec.startswith("~readnc"):
         parts = spec.split(" ", 6)
         kv = dict(x.split("=", 1) for x in parts[1:6])
@@ -248,6 +272,30 @@ def meets_spec(op, code, spec, roles=None):
             return False, "sample outside the requested bounds"
         return False, "not the uniform bucket means of any stored level's lines in range"
     return True, ""
+
+
+def decode_region(b, p):
+    """reference decoder of a data region (documented layout): list of (ts, payload hex) or None"""
+    ls = p + 2
+    if len(b) % ls:
+        return None
+    lines = [b[i:i + ls] for i in range(0, len(b), ls)]
+    nraw = {0: 4, 1: 2, 2: 1, 3: 1}.get(p, 0)
+    out, full, i = [], None, 0
+    while i < len(lines):
+        l = lines[i]
+        if l[:2] == b"\xff\xff" and i + 1 < len(lines) and lines[i + 1][:2] == b"\xff\xff":
+            if i + 2 + nraw > len(lines):
+                return None
+            tsb = l[2:] + lines[i + 1][2:] + b"".join(lines[i + 2:i + 2 + nraw])
+            full = int.from_bytes(tsb[:8], "little")
+            i += 2 + nraw
+            continue
+        if full is None:
+            return None
+        out.append((full + int.from_bytes(l[:2], "little"), l[2:].hex() if p else "-"))
+        i += 1
+    return out
 
 
 def in_bounds(t, s, e):
@@ -330,13 +378,14 @@ def judge(script, proj, timeout=120, audit=False):
     if cstat == "hang" or len(code) < len(ops):
         # the op after the last output hung or killed the process
         code = code + ["hang" if cstat == "hang" else "abort"] + ["-"] * (len(ops) - len(code) - 1)
+    pending = None
     for i, op in enumerate(ops):
         cmd = op.split()[0]
         c, m, s = code[i], model[i], spec[i]
         if proj.get("region") and c == m and c == "panic":
             # inside the region of the recorded finding the model predicts this very panic:
             # the tie model-code holds, the property is not judged here (known finding)
-            return res
+            break
         if c in ("hang", "abort") or (proj.get("nopanic") and c == "panic"):
             # never acceptable for any property that looks at this op; for others stop judging
             if proj.get("nopanic") or proj["ops"] is None or cmd in proj["ops"]:
@@ -345,7 +394,7 @@ def judge(script, proj, timeout=120, audit=False):
                 res.why = f"the call ended in {c}"
                 res.model_agrees = (c == m)
                 return res
-            return res
+            break
         if proj["ops"] is not None and cmd not in proj["ops"]:
             continue
         res.checked += 1
@@ -398,10 +447,15 @@ def judge(script, proj, timeout=120, audit=False):
         if not ok_model:
             # does the MODEL contradict the spec here?  then the proof side is what broke
             ok_ms, _ = meets_spec(op, m, s, roles)
-            res.kind = "corr" if ok_ms else "modelspec"
-            res.op_index, res.op, res.code, res.model, res.spec = i, op, c, m, s
-            res.why = "implementation and model disagree"
-            return res
+            k_ = "corr" if ok_ms else "modelspec"
+            if pending is None:
+                # keep looking: a later op of the same script may fail the PROPERTY itself (implementation
+                # against specification, which does not depend on the model) - that is the better replay
+                pending = (k_, i, op, c, m, s)
+            continue
+    if pending is not None:
+        res.kind, res.op_index, res.op, res.code, res.model, res.spec = pending
+        res.why = "implementation and model disagree"
     return res
 
 
